@@ -192,10 +192,18 @@ def run(ctx):
     # the writer appends, changes some metadata and flushes it; a reader that opens the dirfile afresh at each point
     # must never see fewer frames than a reader saw before, and exactly the frames written
     bchunks, bmeta = [], []
-    for rep in range(6 if ctx.thorough() else 3):
+    for rep in range(8 if ctx.thorough() else 4):
         F0 = rng.choice([2 ** 32 + 123, 5000000123, 2 ** 40 + 7, 2 ** 31 + 5])
         spf = rng.choice([1, 2])
-        L = ["reset", "file format " + hx("/VERSION 10\n/ENDIAN little\n/ENCODING none\n/FRAMEOFFSET %d\nt RAW UINT8 %d\nk CONST UINT8 1\n" % (F0, spf)), "file t "]
+        more, files = "", []
+        if rep % 2:
+            # the reference field is implicit (the first RAW field in the file) and neither the alphabetically first nor the
+            # last RAW field; the other RAW fields have other lengths.  Rewriting the metadata must not change which field counts.
+            F0 = rng.choice([0, 3, 2 ** 32 + 9])
+            more = "adc RAW UINT8 1\nzz RAW UINT8 1\n" + rng.choice(["", "m RAW UINT8 1\n"])
+            files = ["file adc 01", "file zz " + "07" * 40, "file m 0102"]
+        L = ["reset", "file format " + hx("/VERSION 10\n/ENDIAN little\n/ENCODING none\n/FRAMEOFFSET %d\nt RAW UINT8 %d\n%sk CONST UINT8 1\n%s" % (
+            F0, spf, more, "q RAW UINT8 1\n" if (more and rng.random() < 0.5) else "")), "file t "] + files + ["file q 01020304"]
         points = []
         nwritten = 0
         for st in range(rng.randint(3, 6)):
